@@ -837,6 +837,11 @@ func createRegionSearchKey(table, key []byte) []byte {
 	if len(key) < keylen {
 		keylen = len(key)
 	}
+	if keylen < 0 {
+		// a table name that leaves no room for any key (it can only come from
+		// a corrupt hbase:meta row, HBase limits table names to far less)
+		keylen = 0
+	}
 
 	metaKey := make([]byte, 0, len(table)+keylen+3)
 	metaKey = append(metaKey, table...)
